@@ -7,6 +7,8 @@ namespace C06
 /-- strictly ascending keys. -/
 def Sorted (m : Map) : Prop := m.Pairwise (fun a b => blt a.1 b.1 = true)
 
+instance (m : Map) : Decidable (Sorted m) := by unfold Sorted; infer_instance
+
 theorem sorted_nil : Sorted [] := List.Pairwise.nil
 
 theorem sorted_cons {e : Entry} {m : Map} :
